@@ -600,7 +600,9 @@ func gz(b []byte) []byte {
 
 func genReq(t *rapid.T) Req {
 	r := Req{Method: rapid.SampledFrom([]string{"GET", "GET", "GET", "GET", "GET", "POST", "POST", "POST", "HEAD", "HEAD", "PUT", "DELETE", "PATCH", "OPTIONS", "FOO", "PURGE", "get", "G T", ""}).Draw(t, "method"),
-		Target: rapid.SampledFrom([]string{"/o/x/y", "/o/x/y", "/o/x/y", "/o/x/y?a=1&b=2&b=3&n=7", "/o/x/y?a=1&b=2&b=3&n=7", "/o/sub/deep/er?a=%20x", "/o/%41/z%2Fw?a=%zz", "/o/x/", "/o/x/y?n=abc", "/o/x", "/", "/nope", "*", "http://evil.test/o/x/y", "/o/x/y?" + strings.Repeat("k=v&", 40), "/o/\xff\xfe/y", "//o/x/y", "/o/x/y#frag", "o/x/y", ""}).Draw(t, "target"),
+		Target: rapid.SampledFrom([]string{"/o/x/y", "/o/x/y", "/o/x/y", "/o/x/y?a=1&b=2&b=3&n=7", "/o/x/y?a=1&b=2&b=3&n=7", "/o/sub/deep/er?a=%20x", "/o/%41/z%2Fw?a=%zz", "/o/x/", "/o/x/y?n=abc", "/o/x", "/", "/nope", "*", "http://evil.test/o/x/y", "/o/x/y?" + strings.Repeat("k=v&", 40), "/o/\xff\xfe/y", "//o/x/y", "/o/x/y#frag", "o/x/y", "",
+			// percent signs that are not an escape: cut off at the end of the path, alone, followed by non-hex digits
+			"/o/x/y%2", "/o/x/%4", "/o/x/y%", "/o/x/%zz", "/o/x/%2?a=1", "/o/%/y%", "//", "///", "/o/x//"}).Draw(t, "target"),
 		Proto:  rapid.SampledFrom([]string{"", "", "", "", "", "", "", "", "", "HTTP/1.0", "HTTP/1.0", "HTTP/2.0", "HTTP/000", "XTTP/1.1"}).Draw(t, "proto")}
 	add := func(k string, vals []string) {
 		if rapid.IntRange(0, 3).Draw(t, "has"+k) == 0 {
